@@ -4,6 +4,7 @@ CONSTANTS
   MaxEdges = 9
   FailKinds = {"err"}
   AllowDangling = FALSE
+  MaxRerun = 0
   Runs = 2
   RBug = "none"
 SPECIFICATION RunSpec
